@@ -1,3 +1,14 @@
-import GffProofs.Lemmas.SplitJoin
-open GffProofs
-#print axioms split_join
+import GffProofs.Props.C11
+open GffProofs.C11
+#print axioms query_perm_filter
+#print axioms query_unordered_in_input_order
+#print axioms full_iteration_in_input_order
+#print axioms sqlLe_total
+#print axioms sqlLe_trans
+#print axioms query_sorted
+#print axioms query_sorted_single
+#print axioms length_key
+#print axioms count_eq_length
+#print axioms count_all_eq_length
+#print axioms featuretypes_exact
+#print axioms seqids_exact
